@@ -552,6 +552,45 @@ def corr_inline_check(ck, drv):
                                        "mismatches": mism, "skipped": skipped}
 
 
+def corr_intro_req(ck, drv):
+    """tie H for Model/InternalReq.lean: the real `opset_req` of the `_Introduce` node behind `intros(...)` for every
+    combination of value kinds (tensor / sequence / optional / optional-of-sequence / untyped) up to length 3."""
+    import numpy as np
+    import spox
+    from spox import Optional, Sequence, Tensor, argument
+    from spox._internal_op import intros
+
+    f2 = Tensor(np.float32, (2,))
+    makers = {"tensor": lambda: argument(f2), "seq": lambda: argument(Sequence(f2)),
+              "optional": lambda: argument(Optional(f2)), "optional-of-seq": lambda: argument(Optional(Sequence(f2)))}
+    try:
+        from harness import lib_untyped
+
+        opaque = lib_untyped.make("untyped")
+        makers["untyped"] = lambda: opaque(argument(f2))
+    except Exception:  # noqa: BLE001 - no untyped values available: that kind is left out
+        pass
+    names = sorted(makers)
+    combos = [c for n in (1, 2, 3) for c in itertools.product(names, repeat=n)]
+    reqs, reals = [], []
+    for combo in combos:
+        outs = intros(*[makers[k]() for k in combo])
+        node = outs[0]._op
+        req = {d: v for d, v in node.opset_req}
+        reals.append(req.get("", req.get("ai.onnx")))
+        reqs.append({"k": "intro_req", "kinds": ["optional" if k.startswith("optional") else k for k in combo]})
+    outs = drv.ask_many("C02", reqs)
+    mism = 0
+    for combo, real, o in zip(combos, reals, outs):
+        ck.count(None)
+        if o.get("req") != real:
+            mism += 1
+            if mism <= 3:
+                ck.broken("correspondence", "C02 internal forwarding operator's opset requirement (InternalReq.introReq)",
+                          f"kinds={combo} model={o} real={real}")
+    ck.cov["intro_opset_req"] = {"combinations": len(combos), "kinds": names, "mismatches": mism}
+
+
 def judge_spec_histories(ck, rs):
     st = {"programs": len(rs), "builds": 0, "returned": 0}
     best = {}
@@ -744,9 +783,17 @@ def run(ck: core.Check):
     from translator import build_flags
 
     info = build_flags.generate()
+    try:  # tie G: from which opset on Identity accepts tensors / sequences / optionals (onnx.defs)
+        from translator import identity_types
+
+        ident = identity_types.generate()
+    except Exception as e:  # noqa: BLE001
+        ident = {"error": f"{type(e).__name__}: {e}"}
+        ck.broken("correspondence", "C02 Identity type support not extractable", ident["error"])
     ck.cov["generated"] = {k: info[k] for k in ("known_params", "n_calls", "full_check", "concrete_io")}
     ck.cov["generated"]["to_onnx_model_ir"] = json.dumps(info["to_onnx_model_ir"])
     ck.cov["generated"]["build_ir"] = json.dumps(info["build_ir"])
+    ck.cov["generated"]["identity_min_versions"] = ident
     ck.lean(["SpoxModel.Props.C02"], audit="SpoxModel.Audit.C02")
     if ck.thorough:
         ck.leanchecker(["SpoxModel.Props.C02"])
@@ -794,6 +841,15 @@ def run(ck: core.Check):
                 corr_inline_check(ck, drv)
         except Exception as e:  # noqa: BLE001
             ck.broken("correspondence", "C02 inline argument check not observable", f"{type(e).__name__}: {e}")
+
+    # (e) opset requirement of the internal forwarding operator; Identity's type support from onnx.defs (tie G)
+    if drv is not None:
+        try:
+            with warnings.catch_warnings():
+                warnings.simplefilter("ignore")
+                corr_intro_req(ck, drv)
+        except Exception as e:  # noqa: BLE001
+            ck.broken("correspondence", "C02 internal operator opset_req not observable", f"{type(e).__name__}: {e}")
 
     # generated programs (oracle on all; naming correspondence on the 'naming' slice)
     n_oracle = pick(1600, 12000)
